@@ -340,6 +340,34 @@ def keyList {α : Type} : List (String × TD α) → List (String × KeyTree)
   | (k, e) :: rest => (k, keyTree e) :: keyList rest
 end
 
+/-- an entry carries `bs` as a prefix of its shape / batch size (C01's prefix invariant, one level) -/
+def PrefixOK {α : Type} (bs : Shape) : TD α → Prop
+  | .leaf t => t.shape.take bs.length = bs
+  | .node bs2 _ _ => bs2.take bs.length = bs
+
+mutual
+/-- every entry, at every depth, carries its parent's batch size as a prefix -/
+def Coherent {α : Type} : TD α → Prop
+  | .leaf _ => True
+  | .node bs _ es => CoherentList bs es
+def CoherentList {α : Type} (bs : Shape) : List (String × TD α) → Prop
+  | [] => True
+  | (_, e) :: rest => PrefixOK bs e ∧ Coherent e ∧ CoherentList bs rest
+end
+
+/-- the leaf calls whose effect on a whole coherent tree is proved in Props/C02 (`shape_op_coherent`):
+the call, the batch size it is made for, the batch size it produces -/
+inductive GoodCall : LeafCall → Shape → Shape → Prop
+  | transpose (i j : Nat) (bs : Shape) : i < j → j < bs.length → GoodCall (.transpose i j) bs (swap bs i j)
+  | unsqueeze (i : Nat) (bs : Shape) : i ≤ bs.length → GoodCall (.unsqueeze i) bs (bs.insertIdx i 1)
+  | squeeze (i : Nat) (bs : Shape) : i < bs.length → bs.getD i 0 = 1 → GoodCall (.squeeze i) bs (bs.eraseIdx i)
+  | flatten (a b : Nat) (bs : Shape) : a < b → b < bs.length →
+      GoodCall (.flatten a b) bs (bs.take a ++ [prod ((bs.drop a).take (b + 1 - a))] ++ bs.drop (b + 1))
+  | permute (p : List Nat) (bs : Shape) : p.Perm (List.range bs.length) → p ≠ List.range bs.length →
+      GoodCall (.permute p) bs (p.map (fun i => bs.getD i 0))
+  | view (sh bs : Shape) : prod sh = prod bs → sh ≠ bs → GoodCall (.view sh bs.length) bs sh
+  | reshape (sh bs : Shape) : prod sh = prod bs → sh ≠ bs → GoodCall (.reshape sh bs.length) bs sh
+
 /-- public entry point; a bare leaf is not a tensordict -/
 def tdOp {α : Type} (op : Op) : TD α → Except Err (TD α)
   | .leaf _ => .error .type
